@@ -25,45 +25,59 @@ class Tags:
         self.run()
 
     # -------------------------------------------------------------- store
-    def add(self, l, idx, tags):
+    # keys are (local, path) with path = tuple of field indices (derefs and downcasts are transparent); a tag stored at a
+    # path holds for everything below it, and reading a place collects the tags at, above and below its path
+    def add(self, l, path, tags):
         if not tags:
             return False
-        k = (l, idx)
+        if path is None:
+            path = ()
+        elif isinstance(path, int):
+            path = (path,)
+        k = (l, tuple(path))
         cur = self.t.setdefault(k, set())
         n = len(cur)
         cur |= tags
         return len(cur) != n
 
-    def read_place(self, pl):
-        l = pl['l']
-        out = set()
-        first_field = None
+    @staticmethod
+    def place_path(pl):
+        """(field-index path, exact) -- exact is False when the projection contains an index/subslice"""
+        path = []
         for e in pl['p']:
             if e['k'] == 'field':
-                if e['n'] in ('left', 'right') and 'NodeId' in e.get('ty', ''):
-                    out.add('L' if e['n'] == 'left' else 'R')
-                    return out  # a child link has its own side, whatever the container's tags
-                if first_field is None:
-                    try:
-                        first_field = int(e['i'])
-                    except Exception:
-                        first_field = None
-                    break
+                try:
+                    path.append(int(e['i']))
+                except Exception:
+                    return tuple(path), False
             elif e['k'] in ('deref', 'downcast'):
                 continue
             else:
-                break
-        # child links reached after derefs/downcasts
+                return tuple(path), False
+        return tuple(path), True
+
+    def subtree(self, l, path):
+        """{relative path: tags} of everything stored at or below (l, path), plus the tags of the enclosing prefixes at ()"""
+        out = {}
+        n = len(path)
+        for (ll, p), tg in self.t.items():
+            if ll != l:
+                continue
+            if p[:n] == path:
+                out.setdefault(p[n:], set()).update(tg)
+            elif path[:len(p)] == p:
+                out.setdefault((), set()).update(tg)
+        return out
+
+    def read_place(self, pl):
+        # a child link has its own side, whatever the container's tags
         for e in pl['p']:
             if e['k'] == 'field' and e['n'] in ('left', 'right') and 'NodeId' in e.get('ty', ''):
                 return {'L' if e['n'] == 'left' else 'R'}
-        if first_field is not None and (l, first_field) in self.t:
-            out |= self.t[(l, first_field)]
-            out |= self.t.get((l, None), set())
-            return out
-        for (ll, idx), tg in self.t.items():
-            if ll == l:
-                out |= tg
+        path, _exact = self.place_path(pl)
+        out = set()
+        for tg in self.subtree(pl['l'], path).values():
+            out |= tg
         return out
 
     def read_op(self, op):
@@ -76,6 +90,20 @@ class Tags:
             if 'Side::Right' in txt:
                 return {'R'}
         return set()
+
+    def copy_tree(self, dl, dpath, op):
+        """field-sensitive copy of an operand into (dl, dpath)"""
+        changed = False
+        if op.get('k') in ('copy', 'move'):
+            pl = op['place']
+            for e in pl['p']:
+                if e['k'] == 'field' and e['n'] in ('left', 'right') and 'NodeId' in e.get('ty', ''):
+                    return self.add(dl, dpath, {'L' if e['n'] == 'left' else 'R'})
+            sp, _exact = self.place_path(pl)
+            for rest, tg in self.subtree(pl['l'], sp).items():
+                changed |= self.add(dl, tuple(dpath) + rest, set(tg))
+            return changed
+        return self.add(dl, dpath, self.read_op(op))
 
     # -------------------------------------------------------------- seeds
     def side_edges(self):
@@ -141,25 +169,21 @@ class Tags:
                     dest = st['place']
                     rv = st['rv']
                     k = rv['k']
-                    if dest['p'] and not all(e['k'] in ('deref',) for e in dest['p']):
-                        # partial store: tag the whole local
-                        tg = self._rv_tags(rv)
-                        changed |= self.add(dest['l'], None, tg)
-                        continue
                     dl = dest['l']
-                    if dest['p']:
+                    dpath, exact = self.place_path(dest)
+                    if dest['p'] and dest['p'][0]['k'] == 'deref':
                         dl2 = self._ptr_target(dl)
                         dl = dl2 if dl2 is not None else dl
-                    if k == 'agg' and rv.get('agg') == 'tuple':
+                    if not exact:
+                        changed |= self.add(dl, dpath, self._rv_tags(rv))
+                        continue
+                    if k == 'agg' and rv.get('agg') in ('tuple', 'adt') and not rv.get('adt', '').endswith('internals::Side'):
                         for i, o in enumerate(rv['ops']):
-                            changed |= self.add(dl, i, self.read_op(o))
-                    elif k == 'use' and rv['o'].get('k') in ('copy', 'move') and not rv['o']['place']['p']:
-                        sl = rv['o']['place']['l']
-                        for (ll, idx), tg in list(self.t.items()):
-                            if ll == sl:
-                                changed |= self.add(dl, idx, set(tg))
+                            changed |= self.copy_tree(dl, dpath + (i,), o)
+                    elif k == 'use':
+                        changed |= self.copy_tree(dl, dpath, rv['o'])
                     else:
-                        changed |= self.add(dl, None, self._rv_tags(rv))
+                        changed |= self.add(dl, dpath, self._rv_tags(rv))
                 t = blk['term']
                 if t['k'] == 'call':
                     c = f.call_at(bi)
@@ -168,7 +192,18 @@ class Tags:
                         tg |= self.read_op(a)
                     if c.callee.endswith(('::len', '::is_empty', '::contains', 'split_imbalance', '::cancelled', 'fit_in_descendant')):
                         tg = set()
-                    if not t['dest']['p']:
+                    if c.callee.endswith(('Try::branch', 'Result::<T, E>::unwrap', 'Option::<T>::unwrap', 'Result::<T, E>::expect', 'Option::<T>::expect',
+                                          'Result::<T, E>::map_err', 'From::from', 'Into::into')) and t['args'] and not t['dest']['p']:
+                        # value-preserving wrappers keep the field structure of their payload
+                        if c.callee.endswith(('::unwrap', '::expect')):
+                            a0 = t['args'][0]
+                            if a0.get('k') in ('copy', 'move'):
+                                sp, _e = self.place_path(a0['place'])
+                                for rest, tgs in self.subtree(a0['place']['l'], sp + (0,)).items():
+                                    changed |= self.add(t['dest']['l'], rest, set(tgs))
+                        else:
+                            changed |= self.copy_tree(t['dest']['l'], (), t['args'][0])
+                    elif not t['dest']['p']:
                         changed |= self.add(t['dest']['l'], None, tg)
                     # &mut out-parameters
                     summ = None
